@@ -1,6 +1,6 @@
 (** C03 - continuing from earlier weights equals learning everything in one pass. *)
 From Coq Require Import ZArith List Bool Ring.
-From PV Require Import Bytes BinFmt Store RWSpec RWExec RWProofs RWLaws Labels.
+From PV Require Import Bytes BinFmt Store RWSpec RWExec RWProofs RWLaws Labels WHSpec WHExec WHContinue.
 Import ListNotations.
 
 (** the Rescorla-Wagner map of a concatenation is the composition *)
@@ -96,3 +96,65 @@ Theorem C03_label_positions_injective : forall l x y i,
   index_of x l = Some i -> index_of y l = Some i -> x = y.
 Proof. exact index_of_injective. Qed.
 Print Assumptions C03_label_positions_injective.
+
+(** Widrow-Hoff, the three vector flavours: the delta-rule map of a concatenation is the composition, so any
+    k-way split chained through the weights argument is one pass (same vector tables in every part; a
+    continued call handed the same labelled vectors in another order is the same table after renaming) *)
+Theorem C03_wh_r2r_chain : forall R rO radd rmul rsub eta cv ov cdims parts (W : wfun R),
+  chain R (r2r_learn R rO radd rmul rsub eta cv ov cdims) parts W =
+  r2r_learn R rO radd rmul rsub eta cv ov cdims (concat parts) W.
+Proof. exact r2r_chain. Qed.
+Print Assumptions C03_wh_r2r_chain.
+
+Theorem C03_wh_r2b_chain : forall R rO radd rmul rsub b1 b2 la cv cdims parts (W : wfun R),
+  chain R (r2b_learn R rO radd rmul rsub b1 b2 la cv cdims) parts W =
+  r2b_learn R rO radd rmul rsub b1 b2 la cv cdims (concat parts) W.
+Proof. exact r2b_chain. Qed.
+Print Assumptions C03_wh_r2b_chain.
+
+Theorem C03_wh_b2r_chain : forall R rO rI radd rmul rsub eta ov parts (W : wfun R),
+  chain R (b2r_learn R rO rI radd rmul rsub eta ov) parts W =
+  b2r_learn R rO rI radd rmul rsub eta ov (concat parts) W.
+Proof. exact b2r_chain. Qed.
+Print Assumptions C03_wh_b2r_chain.
+
+(** ... and for the kernel models on flat memory: a second kernel run on the memory the first one left *)
+Theorem C03_wh_r2r_kernel_continue :
+  forall (R : Type) (rO rI : R) (radd rmul rsub : R -> R -> R) (ropp : R -> R),
+    ring_theory rO rI radd rmul rsub ropp (@eq R) ->
+  forall eta cv ov n rows es1 es2 m r k,
+    (0 <= n < two32)%Z -> NoDup rows -> Forall oko32 rows -> oko32 r -> (0 <= k < n)%Z ->
+    kget R rO n (r2r_events R rO radd rmul rsub (kstore R) (kget R rO n) (kset R n) eta cv ov (zrange 0 n) rows es2
+                   (r2r_events R rO radd rmul rsub (kstore R) (kget R rO n) (kset R n) eta cv ov (zrange 0 n) rows es1 m)) r k =
+    if mem_z r rows
+    then r2r_learn R rO radd rmul rsub eta cv ov (zrange 0 n) (es1 ++ es2) (kget R rO n m) r k
+    else kget R rO n m r k.
+Proof. exact r2r_kernel_continue. Qed.
+Print Assumptions C03_wh_r2r_kernel_continue.
+
+Theorem C03_wh_r2b_kernel_continue :
+  forall (R : Type) (rO rI : R) (radd rmul rsub : R -> R -> R) (ropp : R -> R),
+    ring_theory rO rI radd rmul rsub ropp (@eq R) ->
+  forall b1 b2 la cv n rows es1 es2 m r k,
+    (0 <= n < two32)%Z -> NoDup rows -> Forall oko32 rows -> oko32 r -> (0 <= k < n)%Z ->
+    kget R rO n (r2b_events R rO radd rmul rsub (kstore R) (kget R rO n) (kset R n) b1 b2 la cv (zrange 0 n) rows es2
+                   (r2b_events R rO radd rmul rsub (kstore R) (kget R rO n) (kset R n) b1 b2 la cv (zrange 0 n) rows es1 m)) r k =
+    if mem_z r rows
+    then r2b_learn R rO radd rmul rsub b1 b2 la cv (zrange 0 n) (es1 ++ es2) (kget R rO n m) r k
+    else kget R rO n m r k.
+Proof. exact r2b_kernel_continue. Qed.
+Print Assumptions C03_wh_r2b_kernel_continue.
+
+Theorem C03_wh_b2r_kernel_continue :
+  forall (R : Type) (rO rI : R) (radd rmul rsub : R -> R -> R) (ropp : R -> R),
+    ring_theory rO rI radd rmul rsub ropp (@eq R) ->
+  forall eta ov n rows es1 es2 m d c,
+    (0 <= n < two32)%Z -> NoDup rows -> Forall oko32 rows -> cues_ok (okc_n n) (es1 ++ es2) ->
+    oko32 d -> okc_n n c ->
+    kget R rO n (b2r_events R rO rI radd rmul rsub (kstore R) (kget R rO n) (kset R n) eta ov rows es2
+                   (b2r_events R rO rI radd rmul rsub (kstore R) (kget R rO n) (kset R n) eta ov rows es1 m)) d c =
+    if mem_z d rows
+    then b2r_learn R rO rI radd rmul rsub eta ov (es1 ++ es2) (kget R rO n m) d c
+    else kget R rO n m d c.
+Proof. exact b2r_kernel_continue. Qed.
+Print Assumptions C03_wh_b2r_kernel_continue.
